@@ -50,6 +50,9 @@ fn main() {
         "multi_logs" => bar::multi_logs(rest),
         "bar_reuse" => bar::bar_reuse(rest),
         "multi_rate" => bar::multi_rate(rest),
+        "multi_removed" => bar::multi_removed(rest),
+        "pad_no_panic" => c12::pad_no_panic(rest),
+        "io_fail_state" => c18::io_fail_state(rest),
         "multi_finish" => bar::multi_finish(rest),
         "iter_adaptors" => c17::iter_adaptors(rest),
         "est_decay" => c09::est_decay(rest),
